@@ -9,22 +9,41 @@
    after any of them; Retained in {0, 1, 3, 20}, batches of 1 / 2 / all blocks, L1 head lagging,
    equal to and ahead of the local head.  The FAITHFUL model (switch as probed on the code) is
    expected to violate RetainedIntact / StateReadsCorrect iff H12 is still there.
+   The windowed event index (aggregated bloom filters over aligned windows of W blocks: running
+   window in memory, lazily rebuilt after a start; completed windows persisted; a prune deletes
+   the persisted windows wholly below the block it reached) is part of the model with W = 4, so
+   that the oldest retained block lands on every residue mod W: EventsCovered, FilterFollowsChain.
+   With the bound of that delete moved by one block (WinBound "inclusive" / "short") TLC must
+   report EventsCovered / BelowFloorClean violated.
 2. Binding (a): TLC-simulated behaviours replayed on a real pruning node (real pruner.Pruner service
    fed through real feeds, real RetentionFloor shared with the Blockchain, fault-injecting store):
    decision of every handler, number of batch writes, projected durable state after every single
    batch write, the in-memory floor; plus every monitor of the property against an unpruned twin.
 3. Binding (b): interruption-free behaviours; every prune is re-run with a cancellation and with a
    crash after EVERY batch write, restarted, resumed — same final database as uninterrupted.
+4. The same two bindings with ABSOLUTE block numbers across a boundary of the real window size
+   (scenarios w0 / w1: the world starts from the image of an earlier life — chain 0..Base pruned
+   up to Base, Base = 8184 — so that the dozen blocks of a behaviour straddle block 8192; the set
+   of persisted windows is part of the projection compared after every step and every batch
+   write), and binding (c): directed boundary scenarios — the oldest retained block placed on
+   8190..8193 by the real service, batches of one block and of all, event index cold / warm /
+   not yet initialised / re-initialised after a crash or a graceful stop — judged by unfiltered
+   and filtered event queries against a scan of the twin's receipts.
 """
 import json
 import vlib
 
+WIN = 8192          # core.NumBlocksPerFilter (the engine refuses behaviours generated for another size)
+WBASE = WIN - 8     # first block of the boundary scenarios' initial chain
 SCEN = {
-    # name: MaxH InitH MaxL1 Retained PruneBatch L2PerPrune MinAge
+    # name: MaxH InitH MaxL1 Retained PruneBatch L2PerPrune MinAge [Base]
     "r1": dict(MaxH=13, InitH=11, MaxL1=15, Retained=1, PruneBatch=2, L2PerPrune=2, MinAge=True),
     "r0": dict(MaxH=13, InitH=10, MaxL1=15, Retained=0, PruneBatch=1, L2PerPrune=1, MinAge=False),
     "r3": dict(MaxH=13, InitH=12, MaxL1=15, Retained=3, PruneBatch=99, L2PerPrune=1, MinAge=True),
     "r20": dict(MaxH=13, InitH=11, MaxL1=30, Retained=20, PruneBatch=1, L2PerPrune=1, MinAge=False),
+    # across block 8192: L1 heads near the local head put the oldest retained block on 8190..8193
+    "w1": dict(MaxH=WBASE + 13, InitH=WBASE + 11, MaxL1=WBASE + 15, Retained=1, PruneBatch=2, L2PerPrune=1, MinAge=True, Base=WBASE),
+    "w0": dict(MaxH=WBASE + 13, InitH=WBASE + 10, MaxL1=WBASE + 15, Retained=0, PruneBatch=1, L2PerPrune=1, MinAge=False, Base=WBASE),
 }
 
 
@@ -33,20 +52,25 @@ def tla_bool(b):
 
 
 def cfg_text(sc, sw, interrupts=True, max_steps=8, mbt=False, revert=True):
-    c = SCEN[sc]
+    c = dict(SCEN[sc])
+    c.setdefault("Base", 0)
+    # exhaustive: small windows, every residue; behaviours to replay: the code's window size
+    c["W"] = WIN if mbt else 4
     lines = ["CONSTANTS"]
-    for k in ("MaxH", "InitH", "MaxL1", "Retained", "PruneBatch", "L2PerPrune"):
+    for k in ("MaxH", "InitH", "MaxL1", "Retained", "PruneBatch", "L2PerPrune", "W", "Base"):
         lines.append("  %s = %d" % (k, c[k]))
     lines += ["  Lag = 10", "  MinAge = %s" % tla_bool(c["MinAge"]), "  MaxSteps = %d" % max_steps,
               "  EnableRevert = %s" % tla_bool(revert), "  EnableInterrupts = %s" % tla_bool(interrupts),
               "  FixPruneAtomicFloor = %s" % tla_bool(sw["FixPruneAtomicFloor"]),
-              "  FixSampleOnReorg = %s" % tla_bool(sw["FixSampleOnReorg"])]
+              "  FixSampleOnReorg = %s" % tla_bool(sw["FixSampleOnReorg"]),
+              '  WinBound = "exact"']
     if mbt:
         lines += ["INIT MBTInit", "NEXT MBTNext"]
     else:
         lines += ["INIT Init", "NEXT Next", "VIEW view",
-                  "INVARIANTS TypeOK NoUnderflow FloorBound AgeBound RetainedIntact StateReadsCorrect BelowFloorClean",
-                  "PROPERTIES Resumable FloorMonotone RestartIsNoOp"]
+                  "INVARIANTS TypeOK NoUnderflow FloorBound AgeBound RetainedIntact StateReadsCorrect BelowFloorClean "
+                  "EventsCovered FilterFollowsChain",
+                  "PROPERTIES Resumable FloorMonotone RestartIsNoOp InitFilterOnlyAdds"]
     lines.append("CHECK_DEADLOCK FALSE")
     return "\n".join(lines) + "\n", dict(c)
 
